@@ -72,6 +72,25 @@ PROPS = {
                                      "uuid crate: UUID text -> u128 is done on the Rust side"],
         "assumptions": ["the configuration was accepted by from_config (valid regexes and UUID strings); built-in strategies only (not grpc)"],
     },
+    "C13": {
+        "props_file": "Props/C13.v",
+        "run_files": ["Run/CaseC13.v"],
+        "imports": ["Lib.Bytes", "Limiter.F32", "Limiter.Bucket", "Limiter.Limiter", "Run.CaseC13"],
+        "case_type": "c13case",
+        "checkers": {"RND": "check_c13", "BND": "check_c13", "SAT": "check_c13"},
+        "harness": [{"bin": "limiter"}],
+        "shard": 14,                       # 213 cases -> 16 coqc processes
+        "quick_scale": 1, "thorough_scale": 12, "search_factor": 6,
+        "ties": ["harness limiter binary: RateLimiter<u64> under a paused tokio clock vs Limiter.enqueue (decisions, tracked keys after every attempt, per-key solo runs)"],
+        "allowed_axioms": ["ClassicalDedekindReals.sig_not_dec", "ClassicalDedekindReals.sig_forall_dec",
+                           "FunctionalExtensionality.functional_extensionality_dep", "Classical_Prop.classic"],
+        "rule": "limiter binary: seeded histories over 1-6 keys, limits {1,2,3,60}, durations {1 ms,1 s,1.5 s,10 s}, gaps {0,1 ns,d-1,d,d+1,2d-1,2d,2d+1,4d,random}, "
+                "8 fixed boundary histories, bursts at one instant; non-trivial = distinct history with at least one rejection or one key dropped by the cleanup",
+        "trusted_base": COMMON_TB + ["Flocq 4.1.0 binary32 (BinarySingleNaN) as the meaning of Rust f32 + - * / >= and `as f32`",
+                                     "hand model of rate_limiter.rs in Limiter/{F32,Bucket,Limiter}.v (tied by the limiter correspondence)",
+                                     "second Instant::now() of the cleanup modelled as the first (exact under the paused clock)"],
+        "assumptions": ["1 <= limit <= 2^24 and 1 ns <= duration <= 2^24 s for the bounds; non-decreasing attempt times (monotonic clock)"],
+    },
 }
 
 
@@ -79,6 +98,8 @@ def nontrivial(pid, fam, term):
     if pid == "C09":
         if fam in ("VI", "VL", "VR"): return True
         return "[]" not in term.split("(hx")[0] or fam == "DEC"
+    if pid == "C13":
+        return fam != "RND" or "false" in term
     if pid == "C18":
         if fam == "PU32": return True
         return ("mkFilter" in term or "SFill" in term) and "mkTarget" in term
